@@ -307,6 +307,11 @@ struct Explorer {
 
     void replay(const std::map<std::string, std::string> &m) {
         std::vector<K> data; std::string desc;
+        if (m.count("family") && m.count("hist")) {
+            std::vector<K> q; auto spec = ks::FamilySpec::parse(m.at("family"));
+            if (!ks::generate_family<K>(spec, E, data, q)) { fprintf(stderr, "cannot regenerate family\n"); exit(2); }
+            run_history(data, q, m.at("hist"), "family=" + m.at("family")); return;
+        }
         if (m.count("family")) { large_family(ks::FamilySpec::parse(m.at("family"))); return; }
         if (m.count("pagefamily_n")) { page_family(); return; }
         if (m.count("runs")) { data = runs_data(m.at("runs")); desc = "runs=" + m.at("runs"); }
@@ -331,6 +336,15 @@ struct Thunk {
         if (t.kind == 0) ex.small_scope(t.palette, t.len, t.first);
         else if (t.kind == 1) ex.run_family(t.l0);
         else if (t.kind == 5) ex.page_family();
+        else if (t.kind == 7) {
+            // hashed irregular keys for every n in a window: every residue of n and of the stored segment count; for C12 through a
+            // create / raw-create / reopen / reopen history each
+            for (long n = t.w_lo; n < t.w_hi && !r.deadline_passed(); ++n) {
+                ks::FamilySpec s; s.kind = "irr"; s.chunks = 1; s.rep = n; s.word = n % 5;
+                if (prop == 12) { std::vector<K> data, queries; if (ks::generate_family<K>(s, E, data, queries)) { r.add(c.arrays); r.add(c.nontrivial); ex.run_history(data, queries, n % 2 ? "R,W,O1,O2" : "W,R,O2,O1", "family=" + s.str()); } }
+                else ex.large_family(s);
+            }
+        }
         else if (t.kind == 6) {
             for (long a : {1L, 2L, 3L}) for (long L : {long(E) + 1, 2 * long(E) + 2, 4 * long(E) + 4, 200L}) for (long so : {-1L, 0L, 50L}) { if (r.deadline_passed()) break; ks::FamilySpec s; s.kind = "tworuns"; s.n = 32768; s.chunks = t.p; s.seam = t.seam; s.width = a; s.rep = L; s.word = so; ex.large_family(s); }
         }
@@ -390,6 +404,10 @@ int main(int argc, char **argv) {
             for (size_t l0 = 0; l0 < 16; ++l0) tasks.push_back({int(c), 1, 0, 0, 0, l0});
         }
     if (prop == 12 || prop == 17) for (size_t c = 0; c < cfgs.size(); ++c) { if (cfgs[c].tier == 1 && !thorough) continue; tasks.push_back({int(c), 5, 0, 0, 0, 0}); }
+    if (prop == 12) for (size_t c = 0; c < cfgs.size(); ++c) {   // irr family through create / raw-create / reopen histories
+        if (cfgs[c].tier == 1 && !thorough) continue;
+        for (long n0 = 9; n0 < (thorough ? 1000 : 400); n0 += 49) { Task t{int(c), 7, 0, 0, 0, 0}; t.w_lo = n0; t.w_hi = std::min<long>(n0 + 49, thorough ? 1000 : 400); tasks.push_back(t); }
+    }
     // chunked construction (n = 2^15, 2 and 20 chunks): seam-window words (every 4th) and long duplicate runs, 32/64-bit configurations
     if (prop == 11) {
         bool asan_build = false;
@@ -400,6 +418,7 @@ int main(int argc, char **argv) {
             if (cfgs[c].tier == 1 && !thorough) continue;
             if (c == 0 || (asan_build && !thorough)) continue;   // int16 cannot hold 2^15 keys of the family
             for (long w = 0; w < 256; w += 16) { Task t{int(c), 4, 0, 0, 0, 0}; t.w_lo = w; t.w_hi = w + 16; tasks.push_back(t); }   // density family: several levels
+            for (long n0 = 9; n0 < (thorough ? 1000 : 400); n0 += 49) { Task t{int(c), 7, 0, 0, 0, 0}; t.w_lo = n0; t.w_hi = std::min<long>(n0 + 49, thorough ? 1000 : 400); tasks.push_back(t); }   // irr family
             for (long p : {2L, 20L}) {
                 for (long w = 0; w < 4096; w += 256) { Task t{int(c), 2, 0, 0, 0, 0}; t.p = p; t.w_lo = w; t.w_hi = w + 256; tasks.push_back(t); }
                 for (long j = 0; j < p; ++j) { if (p == 20 && !thorough && j > 1 && j < 18) continue; for (long len : {1L, 2L}) { if (j + len > p) continue; Task t{int(c), 3, 0, 0, 0, 0}; t.p = p; t.seam = j; t.rep = len; tasks.push_back(t); } }
